@@ -69,6 +69,10 @@ CLAIMED = {
    technique="TLA+ input matrix (MC_C18.tla) generated by TLC; events recorded from the real crate validated by TLC against the algebraic trace specification Trace_TextCodec (learned bytes<->text map per codec)",
    text="TLC generates the input matrix (byte strings of every length 0..12, at every bit alignment inside a parent bit-string so that the copying path is taken, and in every argument form; inputs that >bitstr rejects; texts containing never-valid characters) and the real interpreter runs the four encoders/decoders on it; TLC validates the recorded events against a trace specification that learns the bytes<->text map per codec and requires determinism, injectivity, decode(encode(b)) = b, nil for never-valid characters, never a decode error, and rejection by the encoder of exactly what >bitstr rejects or what is not whole bytes. A corrupted decode result is shown to be rejected on every run.",
    note="Exploration level: the specification is a generator and an algebraic oracle; it does not model the third-party encoders, and the alphabets are deliberately not fixed."),
+ "C03": dict(cat="model_checking", design="5/C03",
+   technique="TLA+ value semantics of interpreter instances: TLC enumerates all clone/submit/step histories per theme (MC_C03); histories executed on real State::clone values and validated by TLC against the observational trace specification Trace_CloneObs; REPL /snapshot-/rollback scripts through the real binary",
+   text="On the specification level an interpreter is a value: what an instance renders is a function of the calls applied to it since boot, a clone inheriting its source's sequence. TLC enumerates every history (up to three instances, clone of clone, length 3-4) over themed alphabets built to share storage and then mutate it - slices of a variable's bit-string, variables/vectors/maps, definitions with late binding that patches code in place, the parsing cursor and intercepted output, the 2D canvas host object, stepping and reverse stepping. Each history is executed on real State values and the canonical dump of every live instance after every event is validated by TLC against the trace specification, which implies: a clone equals its source, an event on one instance changes no other, and equal call sequences give equal dumps, results and output. Seeded long histories over the whole dictionary and REPL /snapshot-/rollback scripts through the real binary complete it.",
+   note="The dump renders shared structure by value (bit-strings as bits, the canvas through the plugin's public accessors); non-deterministic and external words are excluded by the property itself."),
 }
 
 PENDING_REASON = "check not built yet in this build session (planned, DESIGN.md section 12); no claim is made for it"
